@@ -360,7 +360,7 @@ def chan_monitor(c02, sc, views):
             prev = c02.carry(prev, v)
             continue
         s = int(args[0])
-        for x, d in v.data:
+        for x, d in (v.data if kind == "pub" else []):      # live copies only (history answers: run_queries)
             if x in inc and d["seq"] <= inc[x]:
                 res.append(("recipient-numbers-increasing", k, "connection %d (%s) received number %d after number %d"
                             % (x, "channel subscription" if prev.att.get(x, (0, False))[1] else "subscriber", d["seq"], inc[x])))
@@ -499,4 +499,224 @@ def run_channel(ctx):
         "copies_to_channel_subscriptions": chan_copies, "law_failures": sum(len(v) for v in seen.values()),
         "correspondence_mismatches": mism, "impl_wall_s": round(t_impl, 1),
         "rule": "the 3 hand-written histories of the C02 corpus + seeded model-guided fan-out histories (tools/props/c02.py generator) selected so that about 80% run on a channel-enabled group (owner, members, stored channel readers; connections attached under the grpXXX or the chnXXX name), the rest on plain groups and p2p topics; laws: recipient-shows-acknowledged-number, push-shows-acknowledged-number, ack-number-is-lastid, numbers-consecutive, number-issued-twice, recipient-numbers-increasing, channel-subscription-is-recipient",
+    }
+
+
+# ---------------------------------------------------------------------------------------------
+# part 3: later queries ({get desc}, {get data}) of channel subscriptions, p2p participants and sessions acting on
+# behalf of a user.  Model coq/Sys/FanoutQueryC01.v (theorems c01_query_* of PropC01.v), driver
+# harness/overlay/server/zz_verif_c01q_test.go (the C02 fan-out driver's scenarios + qdesc / qdata), runner c01q.
+
+def q_run_impl(ctx, c02, scns, tag="q"):
+    fin = os.path.join(ctx.work, "qscn_%s.in" % tag)
+    fout = os.path.join(ctx.work, "qscn_%s.impl" % tag)
+    with open(fin, "w") as f:
+        for sc in scns:
+            f.write("\n".join(sc.lines()) + "\n")
+    if os.path.exists(fout):
+        os.remove(fout)
+    env = dict(vlib.GOENV, VERIF_IN=fin, VERIF_OUT=fout)
+    p = subprocess.run([os.path.join(vlib.BUILD, "maindrv.test"), "-test.run", "^TestVerifC01q$", "-test.count=1", "-test.timeout=3000s"],
+                       stdout=subprocess.PIPE, stderr=subprocess.STDOUT, env=env, cwd=os.path.join(vlib.REPO, "server"), timeout=3400)
+    out = p.stdout.decode("utf8", "replace")
+    lines = open(fout).read().split("\n") if os.path.exists(fout) else []
+    log = "\n".join(l for l in out.split("\n") if not (len(l) > 3 and l[0] in "IWE" and l[1:3] == "20"))
+    return p.returncode, c02.parse_blocks(lines), log
+
+
+def q_run_model(ctx, c02, scns):
+    lines = []
+    for sc in scns:
+        lines += sc.lines()
+    rc, out, err = ctx.run_model("c01q", lines)
+    flat = []
+    for o in out:
+        flat += o.split("\n")
+    return rc, c02.parse_blocks(flat), err
+
+
+def q_add_queries(rng, c02, sc, mviews, rate=0.45):
+    """inserts description / history queries of connections that are attached (by the fan-out model's state) after
+    random requests of a fan-out scenario; queries change no state, so the rest of the scenario is unaffected"""
+    ops = []
+    clogged = set()
+    p2p = sc.kind == "p2p"
+    for k, (kind, args) in enumerate(sc.ops):
+        ops.append((kind, list(args)))
+        if kind == "clog":
+            clogged.add(int(args[0]))
+        elif kind in ("unclog", "disc"):
+            clogged.discard(int(args[0]))
+        if k >= len(mviews) or mviews[k].oos or mviews[k].skipped:
+            ops += [(kk, list(aa)) for kk, aa in sc.ops[k + 1:]]
+            break
+        v = mviews[k]
+        att = [s for s in v.att if s not in clogged and s in sc.sessions]
+        if clogged or not att or rng.random() >= rate:
+            continue
+        for _ in range(rng.choice([1, 1, 2, 3])):
+            s = rng.choice(att)
+            u, ch = v.att[s]
+            a = u if sc.sessions[s][1] else 0
+            sp = "c" if ch else ("u" if p2p else "g")
+            if sc.kind == "chn" and rng.random() < 0.12:
+                sp = "g" if sp == "c" else "c"
+            if p2p and rng.random() < 0.15:
+                sp = "T"
+            last = v.lastid
+            if rng.random() < 0.5:
+                ops.append(("qdesc", [s, a, sp, rng.choice(IMS_KINDS)]))
+            else:
+                since = max(0, rng.choice([0, 0, 0, 1, last, last - 1, rng.randint(0, last + 1)]))
+                before = max(0, rng.choice([0, 0, 0, last + 1, last, rng.randint(0, last + 2)]))
+                ops.append(("qdata", [s, a, sp, since, before, rng.choice([0, 0, 0, 1, 2, 3])]))
+    return sc.clone(ops)
+
+
+def q_frames(v, s):
+    descs = [kvs(t) for x, t in v.other if x == s and t.startswith("desc ")]
+    datas = [d for x, d in v.data if x == s]
+    return descs, datas
+
+
+def query_monitor(c02, sc, views):
+    res = chan_monitor(c02, sc, views)
+    prev = c02.View([])
+    published = {}
+    R = c02.R
+    for k, v in enumerate(views):
+        kind, args = sc.ops[k]
+        if v.skipped:
+            prev = c02.carry(prev, v)
+            continue
+        s = int(args[0])
+        if kind == "pub":
+            cur = prev.lastid if (k > 0 and views[k - 1].loaded) else None
+            if cur is None:
+                published = {}
+            acks = [q for x, c, mine, q in v.ctrl if x == s and mine and c == 202]
+            seq = acks[0] if acks else (v.lastid if (int(args[4]) == 0 and cur is not None and v.loaded and v.lastid == cur + 1) else None)
+            if seq is not None:
+                published[seq] = str(args[5])
+        elif kind in ("qdesc", "qdata") and s in prev.att and k > 0 and views[k - 1].loaded:
+            u = sc.acting(args)
+            pu = prev.users.get(u)
+            reader = pu is not None and not pu["deleted"] and bool(prev.eff(u) & R)
+            name_ok = not (args[2] == "c" and sc.kind != "chn")
+            descs, datas = q_frames(v, s)
+            who = "connection %d (user %d%s, attached under the %s name, asking as %s)" % (
+                s, u, ", channel reader" if (pu and pu["chan"]) else "", "channel" if prev.att[s][1] else "group/p2p", args[2])
+            if kind == "qdesc" and reader and name_ok:
+                want = max(published) if published else 0
+                if len(descs) != 1:
+                    res.append(("query-answered", k, "%s: description query with ims=%s answered with %d descriptions" % (who, args[3], len(descs))))
+                elif int(descs[0]["seq"]) != want:
+                    res.append(("description-shows-acknowledged-number", k, "%s: description (ims=%s) shows seq=%s, last acknowledged number %d"
+                                % (who, args[3], descs[0]["seq"], want)))
+            if kind == "qdata" and name_ok:
+                since, before, limit = int(args[3]), int(args[4]), int(args[5])
+                for d in datas:
+                    if published.get(d["seq"]) != d["content"]:
+                        res.append(("history-shows-acknowledged-number", k, "%s: history shows message %d with content %s; acknowledged: %s"
+                                    % (who, d["seq"], d["content"], published.get(d["seq"], "never"))))
+                if reader:
+                    exp = sorted((n for n in published if n >= since and (before <= 0 or n < before)), reverse=True)
+                    exp = exp[:limit if 0 < limit < 100 else 100]
+                    got = [d["seq"] for d in datas]
+                    if got != exp and all(published.get(d["seq"]) == d["content"] for d in datas):
+                        res.append(("history-shows-acknowledged-number", k, "%s: history since=%d before=%d limit=%d shows numbers %s, acknowledged numbers in range (newest first) %s"
+                                    % (who, since, before, limit, got, exp)))
+        prev = c02.carry(prev, v)
+    return res
+
+
+def run_queries(ctx):
+    from props import c02
+    quick = ctx.tier == "quick"
+    rng = ctx.rng
+    if ctx.replay:
+        scns = [c02.Scn.from_replay(json.load(open(ctx.replay))["replay"]["scenario"], "replay")]
+    else:
+        base = [c02.mk(*c, sid="k%d" % i) for i, c in enumerate(c02.CORPUS)]
+        want = 60 if quick else 1500
+        pool = c02.gen_scenarios(ctx, int(want * 1.5), prefix="q")
+        chn = [sc for sc in pool if sc.kind == "chn"]
+        rest = [sc for sc in pool if sc.kind != "chn"]
+        base += chn[:int(want * 0.7)] + rest[:want - min(len(chn), int(want * 0.7))]
+        rc, mv, err = c02.run_model(ctx, base)
+        if rc != 0:
+            ctx.violation("proof", "runner-crashed", "model runner (c02) failed: " + err[-1000:], {"theorem_or_obligation": "model runner c02"})
+            return
+        scns = [q_add_queries(rng, c02, sc, mv.get(sc.id, [])) for sc in base]
+    t0 = time.time()
+    rc, impl, log = q_run_impl(ctx, c02, scns)
+    t_impl = time.time() - t0
+    bad = next((sc for sc in scns if sc.id not in impl or len(impl[sc.id]) != len(sc.ops)), None)
+    if rc != 0 or bad is not None:
+        ctx.violation("monitor", "server-crashed", "the server process died or stopped answering in the later-queries part (scenario %s): %s"
+                      % (bad.id if bad else "?", log[-1200:]), {"part": "queries", "scenario": bad.replay() if bad else {}})
+        return
+    rc, model, err = q_run_model(ctx, c02, scns)
+    if rc != 0:
+        ctx.violation("proof", "runner-crashed", "model runner (c01q) failed: " + err[-1000:], {"theorem_or_obligation": "model runner c01q"})
+        return
+    seen = {}
+    for sc in scns:
+        for law, k, detail in query_monitor(c02, sc, impl[sc.id]):
+            seen.setdefault(law, []).append((sc, k, detail))
+    known = {f["key"] for f in ctx.load_findings() if f["property"] == ctx.pid}
+    nshrunk = 0
+    for law, lst in seen.items():
+        sc, k, detail = min(lst, key=lambda x: (x[1], len(x[0].sessions)))
+        small = sc.clone(sc.ops[:k + 1])
+        if nshrunk < 3 and not ctx.replay and law not in known:
+            nshrunk += 1
+
+            def still_bad(c, law=law):
+                rc2, im2, _ = q_run_impl(ctx, c02, [c], tag="shrink")
+                return rc2 == 0 and c.id in im2 and len(im2[c.id]) == len(c.ops) and any(l == law for l, _, _ in query_monitor(c02, c, im2[c.id]))
+            small = c02.shrink(small, still_bad, 10 if quick else 120)
+            rc2, im2, _ = q_run_impl(ctx, c02, [small], tag="shrink")
+            dd = [d for l, _, d in query_monitor(c02, small, im2.get(small.id, [])) if l == law]
+            detail = dd[0] if dd else detail
+        ctx.violation("monitor", law, "law %s fails on the implementation's answers on a %s topic (%d requests this run): %s"
+                      % (law, {"chn": "channel-enabled group", "grp": "group", "p2p": "peer-to-peer"}.get(sc.kind, sc.kind), len(lst), detail),
+                      {"part": "queries", "scenario": small.replay(), "law": law, "detail": detail, "scenarios_failing": len(set(x[0].id for x in lst))})
+    mism, diag = 0, 0
+    nq = {"qdesc": 0, "qdata": 0}
+    by = {}
+    for sc in scns:
+        mo = model.get(sc.id, [])
+        prev = c02.View([])
+        for k, (kind, args) in enumerate(sc.ops):
+            if k >= len(mo) or mo[k].oos:
+                break
+            iv, mv = impl[sc.id][k], mo[k]
+            if kind in ("qdesc", "qdata"):
+                s = int(args[0])
+                nq[kind] += 1
+                (di, da), (mdi, mda) = q_frames(iv, s), q_frames(mv, s)
+                a = ([d["seq"] for d in di], [(d["seq"], d["content"]) for d in da])
+                b = ([d["seq"] for d in mdi], [(d["seq"], d["content"]) for d in mda])
+                cls = "%s:%s:%s" % (sc.kind, "channel-subscription" if prev.att.get(s, (0, False))[1] else "obo" if int(args[1]) else "own", kind)
+                by[cls] = by.get(cls, 0) + 1
+                if a != b:
+                    mism += 1
+                    if not seen and mism == 1:
+                        ctx.violation("corr", "correspondence-later-queries",
+                                      "model (Sys/FanoutQueryC01.v) and implementation disagree on the numbers of an answer: op %d %s %s: implementation (desc seq, history) %s, model %s"
+                                      % (k, kind, args, json.dumps(a)[:400], json.dumps(b)[:400]),
+                                      {"part": "queries", "correspondence": "numbers shown by {get desc} / {get data} (FanoutQueryC01.v)",
+                                       "scenario": sc.clone(sc.ops[:k + 1]).replay()})
+                    break
+                full = ([d.get("full") for d in di], [(d["frm"], d["topic"]) for d in da], sorted(c for x, c, m_, q in iv.ctrl if x == s))
+                mfull = ([d.get("full") for d in mdi], [(d["frm"], d["topic"]) for d in mda], sorted(c for x, c, m_, q in mv.ctrl if x == s))
+                if full != mfull:
+                    diag += 1
+            prev = c02.carry(prev, iv)
+    ctx.coverage["later_queries"] = {
+        "evaluations": len(scns), "queries": nq, "queries_by_topic_kind_and_connection": by,
+        "law_failures": sum(len(v) for v in seen.values()), "correspondence_mismatches": mism,
+        "mismatches_outside_C01s_projection (acs present, author, topic name, ctrl codes)": diag, "impl_wall_s": round(t_impl, 1),
+        "rule": "the fan-out histories of the C02 generator (3 hand-written + seeded model-guided; ~70% channel-enabled groups, the rest plain groups and p2p topics) with description queries (ims absent | zero | 2001 | t.updated-1ms | t.updated | now | +1h) and history queries (since / before / limit around lastID) inserted after random requests for connections that are attached by the model's state: own connections, connections attached under the channel name, root connections acting on behalf of a user, sometimes under the other spelling of the topic name; laws: description-shows-acknowledged-number, history-shows-acknowledged-number, query-answered + the channel_recipients laws",
     }
